@@ -222,7 +222,9 @@ def main(argv=None):
                 if "/crash" in b["tid"] and b["prop"] == "C09" and b["clause"] in (
                         "step_move", "director_raised", "internal_error_in_step", "internal_error_on_request",
                         "succeeded_outputs_built", "detached_iff_unreachable"):
-                    report.add_violation("restart_" + b["clause"], b.get("subj", ""), replays.get(b["tid"].split("/")[0]), tid=b["tid"])
+                    # the same defect seen through the restarted build has its own entry for this property
+                    kf = {"F25-step-redefined-while-its-job-is-in-flight": "F25-double-execution-in-restarted-build"}.get(b.get("kf", ""), "")
+                    report.add_violation("restart_" + b["clause"], b.get("subj", ""), replays.get(b["tid"].split("/")[0]), kf=kf, tid=b["tid"])
                 else:
                     key = f"{b['prop']}:{b['clause']}"
                     report.other[key] = report.other.get(key, 0) + 1
